@@ -27,7 +27,7 @@ pub fn lane_cli_timing(seed: u64, stride: usize) -> Vec<Scenario> {
     lane_timing(Tier::Cli, seed)
         .into_iter()
         .enumerate()
-        .filter(|(i, _)| i % stride.max(1) == 0)
+        .filter(|(i, s)| i % stride.max(1) == 0 || s.lane.contains("/with-"))
         .map(|(_, mut s)| {
             s.lane = format!("cli-{}", s.lane);
             s
@@ -185,6 +185,7 @@ pub fn lane_random_from(tier: Tier, seed: u64, start: usize, n: usize, tag: &str
                 let mut docs = vec![];
                 let mut cli = Cli::default();
                 cli.cram_compat = g.chance(10);
+                cli.relative_paths = g.chance(40);
                 let unlimited = g.chance(5);
                 if unlimited {
                     cli.timeout_seconds = Some(0);
@@ -808,6 +809,7 @@ pub fn lane_env(seed: u64) -> Vec<Scenario> {
                     cli.cram_compat = fmt == "md-compat";
                     cli.work_directory = dirmode == "work";
                     cli.keep_tmp = dirmode == "keep";
+                    cli.relative_paths = g.chance(50);
                     // a second scrut instance creates (and sometimes removes) look-alike directories
                     if g.chance(50) {
                         let base = if cli.work_directory && g.chance(50) { "$WORK" } else { "$TMP" };
@@ -898,6 +900,8 @@ pub fn lane_runs(seed: u64) -> Vec<Scenario> {
             let pass2 = [Plan::new(Fate::Pass), Plan::new(Fate::Pass)];
             let mut docs = vec![];
             let mut cli = Cli::default();
+            // documents and -P/-A named by relative paths in every other outcome class
+            cli.relative_paths = oname.len() % 2 == 0;
             match layout {
                 "front-prepend-append" => {
                     let mut main = mk(&mut g, &mut sim, "r/main.md", Format::Md, plans);
@@ -1407,6 +1411,222 @@ pub fn lane_fs_faults(seed: u64) -> Vec<Scenario> {
                     fill_expectations(&mut sc, &mut g);
                     out.push(sc);
                 }
+            }
+        }
+    }
+    out
+}
+
+// ------------------------------------------------------------------ recorded bytes through the real binary
+
+/// payloads for the report lanes: 0 = CR LF on both descriptors, 1 = SGR sequences and a wanted
+/// exit code, 2 = plain
+fn report_payload(t: &mut Test, programs: &mut std::collections::BTreeMap<String, Vec<Op>>, which: usize) {
+    let tag = t.nonce[..6].to_string();
+    let out = |fd: u8, s: String| Op::Out { fd, data: s.as_str().into() };
+    let ops = match which % 3 {
+        0 => vec![
+            out(1, format!("o{}-a\r\n", tag)),
+            out(2, format!("e{}-a\r\n", tag)),
+            out(1, format!("o{}-b\n", tag)),
+            out(2, format!("e{}-b\n", tag)),
+            Op::Status { code: 0 },
+        ],
+        1 => {
+            t.expected_code = Some(5);
+            vec![
+                out(1, format!("\x1b[31mo{}-red\x1b[0m\n", tag)),
+                out(2, format!("e{}-x\r\n", tag)),
+                out(1, format!("o{}-y\r\n", tag)),
+                Op::Status { code: 5 },
+            ]
+        }
+        _ => vec![out(1, format!("o{}-plain\n", tag)), out(2, format!("e{}-plain\n", tag)), Op::Status { code: 0 }],
+    };
+    programs.insert(t.nonce.clone(), ops);
+}
+
+/// C13 through the real binary. The JSON report carries what scrut recorded (stdout, stderr, exit
+/// code) for FAILED test cases only, so every test case here fails on its output; the recorded
+/// bytes are then compared with what the command wrote under the effective configuration - with
+/// the stream selection and the CR LF translation given in every layer (front-matter defaults,
+/// inline, command line, `--cram-compat`).
+pub fn lane_cli_report_bytes(seed: u64) -> Vec<Scenario> {
+    let mut out = vec![];
+    let mut g = G::new(seed ^ 0x4e90);
+    #[derive(Clone, Copy, Debug, PartialEq)]
+    enum L {
+        None,
+        Defaults,
+        Inline,
+        Flag,
+        /// the command line says the opposite of the front-matter defaults
+        FlagOverDefaults,
+    }
+    let mk = |g: &mut G, sim: &mut SimScenario, path: &str, f: Format, n: usize| {
+        let mut tests = vec![];
+        for k in 0..n {
+            let mut t = g.test(&Plan::new(Fate::WrongOutput), &mut sim.programs);
+            report_payload(&mut t, &mut sim.programs, k);
+            tests.push(t);
+        }
+        doc(path, f, tests)
+    };
+    for mode in ["md", "md-compat", "cram"] {
+        let stream_layers: Vec<(L, Stream)> = match mode {
+            "md" => vec![
+                (L::None, Stream::Stdout),
+                (L::Defaults, Stream::Stderr),
+                (L::Defaults, Stream::Combined),
+                (L::Inline, Stream::Stderr),
+                (L::Inline, Stream::Combined),
+                (L::Flag, Stream::Combined),
+                (L::FlagOverDefaults, Stream::Stdout),
+            ],
+            "md-compat" => vec![(L::None, Stream::Combined), (L::Defaults, Stream::Stdout), (L::Defaults, Stream::Stderr), (L::Flag, Stream::Stdout)],
+            _ => vec![(L::None, Stream::Combined), (L::Flag, Stream::Stdout)],
+        };
+        let crlf_layers: Vec<(L, bool)> = match mode {
+            "md" => vec![(L::None, false), (L::Defaults, true), (L::Inline, true), (L::Flag, true), (L::FlagOverDefaults, false)],
+            "md-compat" => vec![(L::None, true), (L::Defaults, false), (L::Flag, false)],
+            _ => vec![(L::None, true), (L::Flag, false)],
+        };
+        for (sl, sv) in &stream_layers {
+            for (cl, cv) in &crlf_layers {
+                let mut sim = base_sim(g.rng.next_u64());
+                let (f, path) = if mode == "cram" { (Format::Cram, "rep/doc.t") } else { (Format::Md, "rep/doc.md") };
+                let mut d = mk(&mut g, &mut sim, path, f, 3);
+                let mut cli = Cli::default();
+                cli.cram_compat = mode == "md-compat";
+                match sl {
+                    L::None => {}
+                    L::Defaults => d.defaults.output_stream = Some(*sv),
+                    L::Inline => {
+                        for t in d.tests.iter_mut() {
+                            t.cfg.output_stream = Some(*sv)
+                        }
+                    }
+                    L::Flag => cli.combine_output = Some(*sv == Stream::Combined),
+                    L::FlagOverDefaults => {
+                        d.defaults.output_stream = Some(if *sv == Stream::Combined { Stream::Stdout } else { Stream::Combined });
+                        cli.combine_output = Some(*sv == Stream::Combined);
+                    }
+                }
+                match cl {
+                    L::None => {}
+                    L::Defaults => d.defaults.keep_crlf = Some(*cv),
+                    L::Inline => {
+                        for t in d.tests.iter_mut() {
+                            t.cfg.keep_crlf = Some(*cv)
+                        }
+                    }
+                    L::Flag => cli.keep_crlf = Some(*cv),
+                    L::FlagOverDefaults => {
+                        d.defaults.keep_crlf = Some(!*cv);
+                        cli.keep_crlf = Some(*cv);
+                    }
+                }
+                let mut sc = Scenario {
+                    lane: format!("report-bytes/{}/stream-{:?}-{:?}/crlf-{:?}-{}", mode, sl, sv, cl, cv),
+                    tier: Tier::Cli,
+                    script_mode: false,
+                    docs: vec![d],
+                    cli,
+                    sim,
+                    pretty: false,
+                    check: vec!["C05".into(), "C13".into(), "C20".into()],
+                };
+                fill_expectations(&mut sc, &mut g);
+                out.push(sc);
+            }
+        }
+    }
+    // defaults of the executing document and test cases that come from prepend / append
+    for what in ["keep-crlf", "strip-ansi", "both", "none"] {
+        for via in ["front", "cli"] {
+            let mut sim = base_sim(g.rng.next_u64());
+            let mut main = mk(&mut g, &mut sim, "inc/main.md", Format::Md, 2);
+            let mut pre = mk(&mut g, &mut sim, "inc/pre.md", Format::Md, 2);
+            let mut post = mk(&mut g, &mut sim, "inc/post.md", Format::Md, 2);
+            pre.main = false;
+            post.main = false;
+            if what == "keep-crlf" || what == "both" {
+                main.defaults.keep_crlf = Some(true);
+            }
+            if what == "strip-ansi" || what == "both" {
+                main.defaults.strip_ansi = Some(true);
+            }
+            let mut cli = Cli::default();
+            if via == "front" {
+                main.prepend.push("pre.md".into());
+                main.append.push("post.md".into());
+            } else {
+                cli.prepend.push("inc/pre.md".into());
+                cli.append.push("inc/post.md".into());
+                cli.relative_paths = true;
+            }
+            let mut sc = Scenario {
+                lane: format!("report-bytes/included/{}/{}", what, via),
+                tier: Tier::Cli,
+                script_mode: false,
+                docs: vec![main, pre, post],
+                cli,
+                sim,
+                pretty: false,
+                check: vec!["C05".into(), "C13".into(), "C20".into()],
+            };
+            fill_expectations(&mut sc, &mut g);
+            out.push(sc);
+        }
+    }
+    out
+}
+
+/// C05 / C13 / C20: a detached test case in front of ordinary ones - outputs and test cases must
+/// still be paired one to one, however the document ends
+pub fn lane_pairing(seed: u64) -> Vec<Scenario> {
+    let mut out = vec![];
+    let mut g = G::new(seed ^ 0x9a17);
+    let to = |ns: u64| TestCfg { timeout_ns: Some(ns), ..Default::default() };
+    for ending in ["plain", "timeout", "doc-timeout", "die", "skip", "wrong-code"] {
+        for detached_at in [0usize, 1, 2] {
+            for payloads in [false, true] {
+                let mut sim = base_sim(g.rng.next_u64());
+                let mut plans = vec![Plan::new(Fate::Pass), Plan::new(Fate::WrongOutput), Plan::new(Fate::Pass), Plan::new(Fate::WrongOutput)];
+                plans.insert(detached_at, Plan::new(Fate::Detached));
+                match ending {
+                    "timeout" => plans.push(Plan::new(Fate::Hang).cfg(to(2 * SEC))),
+                    "doc-timeout" => plans.push(Plan::new(Fate::Hang)),
+                    "die" => plans.push(Plan::new(Fate::Die { sig: 9, after_lines: 1, no_expectations: false })),
+                    "skip" => plans.push(Plan::new(Fate::Code { code: 80, expected: None, exit_shell: false })),
+                    "wrong-code" => plans.push(Plan::new(Fate::Code { code: 4, expected: Some(2), exit_shell: true })),
+                    _ => {}
+                }
+                plans.push(Plan::new(Fate::Pass));
+                let mut tests = vec![];
+                for (k, p) in plans.iter().enumerate() {
+                    let mut t = g.test(p, &mut sim.programs);
+                    if payloads && p.fate == Fate::WrongOutput {
+                        report_payload(&mut t, &mut sim.programs, k);
+                    }
+                    tests.push(t);
+                }
+                let mut d = doc("pair/doc.md", Format::Md, tests);
+                if ending == "doc-timeout" {
+                    d.total_timeout_ns = Some(5 * SEC);
+                }
+                let mut sc = Scenario {
+                    lane: format!("pairing/{}/detached-at-{}/{}", ending, detached_at, if payloads { "payloads" } else { "lines" }),
+                    tier: Tier::Cli,
+                    script_mode: false,
+                    docs: vec![d],
+                    cli: Cli::default(),
+                    sim,
+                    pretty: false,
+                    check: all_checks(),
+                };
+                fill_expectations(&mut sc, &mut g);
+                out.push(sc);
             }
         }
     }
